@@ -195,6 +195,31 @@ func registerSyncIntrinsics(reg regFn) {
 		return nil
 	})
 
+	// sync/atomic.Value: the interface value is kept in the struct's only field
+	avField := func(a []Value, site string) Loc {
+		sl, ok := a[0].(*StructLoc)
+		if !ok {
+			panic(targetPanic{runtime: "invalid memory address or nil pointer dereference (nil *atomic.Value)", site: site})
+		}
+		return sl.fields[0]
+	}
+	reg("(*sync/atomic.Value).Load", func(in *Interp, fr *frame, fn *ssa.Function, a []Value, site string) Value {
+		in.ensureSched().yield("atomic:" + site)
+		return load(avField(a, site))
+	})
+	reg("(*sync/atomic.Value).Store", func(in *Interp, fr *frame, fn *ssa.Function, a []Value, site string) Value {
+		in.ensureSched().yield("atomic:" + site)
+		store(avField(a, site), a[1])
+		return nil
+	})
+	reg("(*sync/atomic.Value).Swap", func(in *Interp, fr *frame, fn *ssa.Function, a []Value, site string) Value {
+		in.ensureSched().yield("atomic:" + site)
+		f := avField(a, site)
+		old := load(f)
+		store(f, a[1])
+		return old
+	})
+
 	// sync/atomic primitives (sequentially consistent; each is a visible operation)
 	for _, ty := range []string{"Int32", "Int64", "Uint32", "Uint64", "Uintptr", "Pointer"} {
 		ty := ty
